@@ -244,7 +244,9 @@ def check_params(env, label, prog, rw):
     """every real parameter is a Parameter object; values are changed after construction (and after a rewrite)"""
     import lightworks as lw
     name = "lightworks/sdk/circuit/circuit.py:Circuit.parameters#xsym"
-    v1 = {i: env.const(F(i + 1, 11)) for i in range(len(prog))}
+    # all parameters START with the same value (distinct Parameter objects that compare equal by value must still be listed and followed separately);
+    # they get pairwise different values later
+    v1 = {i: env.const(F(3, 11)) for i in range(len(prog))}
     v2 = {i: env.const(F(2 * i + 3, 13)) for i in range(len(prog))}
     for i, c_ in enumerate(prog):
         if c_[0] == "loss0":
